@@ -127,6 +127,27 @@ def analyze_owner(oRule):
     return short_owner(type(oRule))
 
 
+def _function_state(out, label, fn):
+    """the mutable state a function object carries between calls: default argument values (`def f(x=[])`),
+    keyword-only defaults and closure cells holding containers"""
+    try:
+        for i, d in enumerate(fn.__defaults__ or ()):
+            if isinstance(d, (list, dict, set)):
+                out["%s.<default %d>" % (label, i)] = canon(d)
+        for kk, d in (fn.__kwdefaults__ or {}).items():
+            if isinstance(d, (list, dict, set)):
+                out["%s.<kwdefault %s>" % (label, kk)] = canon(d)
+        for i, c in enumerate(fn.__closure__ or ()):
+            try:
+                d = c.cell_contents
+            except ValueError:
+                continue
+            if isinstance(d, (list, dict, set)):
+                out["%s.<closure %d>" % (label, i)] = canon(d)
+    except Exception:  # noqa: BLE001
+        pass
+
+
 def module_state(extra=None):
     """deep, identity-free picture of the module-level mutable state a file's processing can read:
     every list / dict / set global of every loaded vsg module (config.dPragmas, the token maps of
@@ -149,10 +170,17 @@ def module_state(extra=None):
             elif isinstance(v, type):
                 if v.__module__ == name:
                     for ak, av in list(vars(v).items()):
+                        if isinstance(av, (staticmethod, classmethod)):
+                            av = av.__func__
+                        if callable(av) and hasattr(av, "__code__"):
+                            # methods incl. __init__: their mutable default arguments are process-wide state too
+                            _function_state(out, "%s.%s.%s" % (name, k, ak), av)
                         if ak.startswith("__"):
                             continue
                         if isinstance(av, (list, dict, set)):
                             out["%s.%s.%s" % (name, k, ak)] = canon(av)
+            elif callable(v) and hasattr(v, "__code__") and getattr(v, "__module__", None) == name:
+                _function_state(out, "%s.%s" % (name, k), v)
             elif isinstance(v, type(sys)) or callable(v) or isinstance(v, (str, int, float, bool, type(None), tuple)):
                 if isinstance(v, (str, int, float, bool, type(None))):
                     out["%s.%s" % (name, k)] = v
